@@ -44,9 +44,9 @@ fn shift_count(count: i64) -> Result<u32, Box<dyn error::Error>> {
     }
 }
 
-fn gcd_magnitude(expr1: i64, expr2: i64) -> u64 {
-    let mut a = expr1.unsigned_abs();
-    let mut b = expr2.unsigned_abs();
+fn gcd_magnitude(expr1: u64, expr2: u64) -> u64 {
+    let mut a = expr1;
+    let mut b = expr2;
     while b != 0 {
         #[cfg(feature = "verif_hooks")]
         crate::verif_hooks::tick(3);
@@ -55,20 +55,6 @@ fn gcd_magnitude(expr1: i64, expr2: i64) -> u64 {
         b = remainder;
     }
     a
-}
-
-fn gcd(expr1: i64, expr2: i64) -> Result<i64, Box<dyn error::Error>> {
-    i64::try_from(gcd_magnitude(expr1, expr2)).map_err(|_| overflow())
-}
-
-fn lcm(expr1: i64, expr2: i64) -> Result<i64, Box<dyn error::Error>> {
-    if expr1 == 0 || expr2 == 0 {
-        return Ok(0);
-    }
-    let multiple = (expr1.unsigned_abs() / gcd_magnitude(expr1, expr2))
-        .checked_mul(expr2.unsigned_abs())
-        .ok_or_else(overflow)?;
-    i64::try_from(multiple).map_err(|_| overflow())
 }
 
 pub fn eval(expr: Node) -> Result<i64, Box<dyn error::Error>> {
@@ -176,41 +162,32 @@ pub fn eval(expr: Node) -> Result<i64, Box<dyn error::Error>> {
             Ok(eval_1.log(eval_2) as i64)
         }
         Gcd(args) => {
-            // Ok(gcd(eval(*expr1)?, eval(*expr2)?))
-            if args.len() > 1 {
-                let mut result: Option<i64> = None;
-                for arg in <Vec<Node> as Clone>::clone(&args).into_iter() {
-                    let right_art = eval(arg)?;
-                    result = match result {
-                        Some(left_arg) => Some(gcd(left_arg, right_art)?),
-                        None => Some(gcd(right_art, 0)?),
-                    };
-                }
-                Ok(result.unwrap())
-            } else {
-                match args.first() {
-                    Some(arg) => gcd(eval((*arg).clone())?, 0),
-                    None => Ok(0),
-                }
+            let mut values = vec![];
+            for arg in <Vec<Node> as Clone>::clone(&args).into_iter() {
+                values.push(eval(arg)?);
             }
+            // fold on magnitudes: only the final result has to fit in an i64
+            let magnitude = values
+                .iter()
+                .fold(0_u64, |acc, value| gcd_magnitude(acc, value.unsigned_abs()));
+            i64::try_from(magnitude).map_err(|_| overflow())
         }
         Lcm(args) => {
-            if args.len() > 1 {
-                let mut result: Option<i64> = None;
-                for arg in <Vec<Node> as Clone>::clone(&args).into_iter() {
-                    let right_art = eval(arg)?;
-                    result = match result {
-                        Some(left_arg) => Some(lcm(left_arg, right_art)?),
-                        None => Some(lcm(right_art, 1)?),
-                    };
-                }
-                Ok(result.unwrap())
-            } else {
-                match args.first() {
-                    Some(arg) => lcm(eval((*arg).clone())?, 1),
-                    None => Ok(0),
-                }
+            let mut values = vec![];
+            for arg in <Vec<Node> as Clone>::clone(&args).into_iter() {
+                values.push(eval(arg)?);
             }
+            if values.iter().any(|value| *value == 0) {
+                return Ok(0);
+            }
+            let mut magnitude: u64 = 1;
+            for value in values.iter() {
+                let value = value.unsigned_abs();
+                magnitude = (magnitude / gcd_magnitude(magnitude, value))
+                    .checked_mul(value)
+                    .ok_or_else(overflow)?;
+            }
+            i64::try_from(magnitude).map_err(|_| overflow())
         }
         Min(args) => {
             if args.len() > 1 {
